@@ -376,12 +376,12 @@ func (p *Parser) InteractiveSeq(r io.Reader) iter.Seq2[[]*Stmt, error] {
 		w := wrappedReader{p: p, rd: r, yield: yield}
 		for stmts, err := range p.StmtsSeq(&w) {
 			if w.stopped {
-				break
+				return
 			}
 			w.accumulated = append(w.accumulated, stmts)
 			if err != nil {
 				if !yield(w.accumulated, err) {
-					break
+					return
 				}
 				// If the caller wishes, they can continue in the presence of parse errors.
 				// TODO: does this even work? Write tests for it. This only came up
@@ -392,7 +392,7 @@ func (p *Parser) InteractiveSeq(r io.Reader) iter.Seq2[[]*Stmt, error] {
 			// back to run the statements and print "$ ".
 			if p.tok == _Newl {
 				if !yield(w.accumulated, nil) {
-					break
+					return
 				}
 				w.accumulated = w.accumulated[:0]
 				// The callback above would already print "$ ", so we
@@ -400,6 +400,11 @@ func (p *Parser) InteractiveSeq(r io.Reader) iter.Seq2[[]*Stmt, error] {
 				// another "$ " print thinking that nothing was parsed.
 				w.lastLine = w.p.line + 1
 			}
+		}
+		// The input may end without a final newline,
+		// in which case the statements on its last line are complete too.
+		if !w.stopped && p.err == nil && len(w.accumulated) > 0 {
+			yield(w.accumulated, nil)
 		}
 	}
 }
